@@ -593,8 +593,14 @@ class MyPyAstVisitor:
                 if not isinstance(return_stmt.expr, mp_nodes.CallExpr | mp_nodes.MemberExpr):
                     # If the return statement is a conditional expression we parse the "if" and "else" branches
                     if isinstance(return_stmt.expr, mp_nodes.ConditionalExpr):
-                        for conditional_branch in [return_stmt.expr.if_expr, return_stmt.expr.else_expr]:
+                        conditional_branches = [return_stmt.expr.if_expr, return_stmt.expr.else_expr]
+                        for conditional_branch in conditional_branches:
                             if conditional_branch is None:  # pragma: no cover
+                                continue
+
+                            if isinstance(conditional_branch, mp_nodes.ConditionalExpr):
+                                # The branches of a nested conditional expression are branches of the return statement too
+                                conditional_branches.extend([conditional_branch.if_expr, conditional_branch.else_expr])
                                 continue
 
                             if not isinstance(conditional_branch, mp_nodes.CallExpr | mp_nodes.MemberExpr):
